@@ -438,13 +438,23 @@ impl CongestionController {
     #[inline]
     fn send_quota(&mut self) -> usize {
         let now = Instant::now();
-        self.pacer.schedule(
+        let tokens = self.pacer.schedule(
             self.rtt.smoothed_rtt(),
             self.algorithm.congestion_window(),
             self.path_status.mtu(),
             now,
             self.algorithm.pacing_rate(),
-        )
+        );
+        // RFC 9002 Section 7: bytes in flight must not exceed the congestion window.
+        let mut room = self
+            .algorithm
+            .congestion_window()
+            .saturating_sub(self.algorithm.bytes_in_flight());
+        // RFC 9002 Section 7.5: a PTO probe must not be blocked by the congestion controller.
+        if self.need_send_ack_eliciting_packets.iter().any(|&n| n > 0) {
+            room = room.max(self.path_status.mtu());
+        }
+        tokens.min(room)
     }
 
     //OnPacketNumberSpaceDiscarded(pn_space):
@@ -459,6 +469,8 @@ impl CongestionController {
     fn discard_epoch(&mut self, epoch: Epoch) {
         assert!(epoch != Epoch::Data);
         self.packet_spaces[epoch].discard(&mut self.algorithm);
+        // a probe requested for a discarded space can never be sent: do not keep the exemption open
+        self.need_send_ack_eliciting_packets[epoch] = 0;
         self.loss_detection_timer = None;
         self.pto_count = 0;
         self.set_loss_detection_timer();
